@@ -339,6 +339,175 @@ def emit_items(snap, terms, nonterms):
     return '\n'.join(out)
 
 
+def rank_certificate(snap, terms, nonterms):
+    """
+    Certificate for Proofs/LRTermRank.ranksOK and Proofs/LRTermAuto.autoOK (checked by the Lean kernel, not trusted):
+    ranks bounding the number of reductions the driver can make per shifted token, and the sets showing that two
+    AUTOSEMI tokens are never shifted in a row.  Productions are taken exactly as `emit` encodes them.
+      ne[A]    0 = A not nullable; e+1 = A nullable and e = the largest number of internal nodes of a derivation tree
+               of A with empty yield (fixpoint over the all-nullable productions)
+      nulls    the nullable nonterminal indices
+      d[A]     unit rank: longest weighted chain of unit-like steps B -> .. A .. (all other symbols nullable) ending
+               in A, each step weighing 1 + the e's of the other symbols
+      K        max over productions of d(lhs) + 1 + sum of e over the nullable rhs symbols
+      r[s]     length of the longest chain of goto transitions on nullable nonterminals leaving state s
+      zl       nonterminals that may derive a string ending in AUTOSEMI
+      al       states that may be on top of the stack while the most recently shifted token is an AUTOSEMI
+    If the grammar has a cycle among its nullable / unit-like productions, or the tables a cycle of nullable goto
+    transitions, no such ranks exist: the affected ranks are emitted as 0 with a `notes` entry and the Lean check
+    fails (a broken obligation of C12, not a translator failure of every property that uses the tables).
+    """
+    tix = {t: i for i, t in enumerate(terms)}
+    nix = {n: i for i, n in enumerate(nonterms)}
+    nT = len(terms)
+    notes = []
+
+    def sym(s):
+        return tix[s] if s in tix else nT + nix[s]
+    prods = [((nix[name] if name in nix else 0), [sym(s) for s in rhs]) for name, rhs, _ in snap['prods']]
+    nullable = set()
+    changed = True
+    while changed:
+        changed = False
+        for a, rhs in prods:
+            if a not in nullable and all(x >= nT and (x - nT) in nullable for x in rhs):
+                nullable.add(a)
+                changed = True
+
+    def is_null(x):
+        return x >= nT and (x - nT) in nullable
+
+    def longest(nodes, succ, what):
+        """longest weighted path leaving each node of a DAG; succ(n) -> [(m, w)]; None if there is a cycle"""
+        order, state = [], {}
+        for root in nodes:
+            if root in state:
+                continue
+            state[root] = 1
+            stack = [(root, iter(succ(root)))]
+            while stack:
+                n, it = stack[-1]
+                for m, _ in it:
+                    if state.get(m) == 1:
+                        notes.append('cycle in %s: no ranks exist' % what)
+                        return None
+                    if m not in state:
+                        state[m] = 1
+                        stack.append((m, iter(succ(m))))
+                        break
+                else:
+                    state[n] = 2
+                    order.append(n)
+                    stack.pop()
+        val = {}
+        for n in order:     # post-order: successors first
+            val[n] = max([0] + [val[m] + w for m, w in succ(n)])
+        return val
+
+    # e: an all-nullable production A -> X1..Xk is one hyper-edge; e(A) = max (1 + sum e(Xi)); fixpoint over the
+    # (small) set of nullable nonterminals, bounded by their number (a longer chain means a cycle)
+    e = {a: 0 for a in nullable}
+    for _ in range(len(nullable) + 2):
+        changed = False
+        for a, rhs in prods:
+            if all(is_null(x) for x in rhs):
+                v = 1 + sum(e[x - nT] for x in rhs)
+                if v > e[a]:
+                    e[a] = v
+                    changed = True
+        if not changed:
+            break
+    else:
+        notes.append('cycle among the all-nullable productions: no ranks exist')
+        e = {a: 0 for a in nullable}
+
+    def e_of(x):
+        return e[x - nT] if is_null(x) else 0
+    # d: edges X -> A (A's rank must be below X's)
+    up = {}
+    for a, rhs in prods:
+        for j, x in enumerate(rhs):
+            if x >= nT and all(is_null(rhs[i]) for i in range(len(rhs)) if i != j):
+                w = 1 + sum(e_of(rhs[i]) for i in range(len(rhs)) if i != j)
+                up.setdefault(x - nT, []).append((a, w))
+    d = longest(range(len(nonterms)), lambda n: up.get(n, ()), 'the unit-like productions')
+    if d is None:
+        d = {a: 0 for a in range(len(nonterms))}
+    K = max(d[a] + 1 + sum(e_of(x) for x in rhs) for a, rhs in prods)
+    K = max([K] + list(d.values()))
+    nstates = max(snap['action'].keys()) + 1
+    ng = {}
+    for q, row in snap['goto'].items():
+        for n, s in row.items():
+            if nix[n] in nullable:
+                ng.setdefault(q, []).append((s, 1))
+    r = longest(range(nstates), lambda q: ng.get(q, ()), 'the goto transitions on nullable nonterminals')
+    if r is None:
+        r = {s: 0 for s in range(nstates)}
+    # AUTOSEMI
+    auto = tix.get('AUTOSEMI')
+    zl = set()
+
+    def ends_z(rhs):
+        for x in reversed(rhs):
+            if x == auto or (x >= nT and (x - nT) in zl):
+                return True
+            if not is_null(x):
+                return False
+        return False
+    changed = True
+    while changed:
+        changed = False
+        for a, rhs in prods:
+            if a not in zl and ends_z(rhs):
+                zl.add(a)
+                changed = True
+    al = set()
+    for q, row in snap['action'].items():
+        if row.get('AUTOSEMI', 0) > 0:
+            al.add(row['AUTOSEMI'])
+    for q, row in snap['goto'].items():
+        for n, s in row.items():
+            if nix[n] in zl:
+                al.add(s)
+    changed = True
+    while changed:
+        changed = False
+        for q, row in snap['goto'].items():
+            if q in al:
+                for n, s in row.items():
+                    if nix[n] in nullable and s not in al:
+                        al.add(s)
+                        changed = True
+    ne = [(e[a] + 1 if a in nullable else 0) for a in range(len(nonterms))]
+    return dict(ne=ne, nulls=sorted(nullable), d=[d[a] for a in range(len(nonterms))], K=K,
+                Emax=max([0] + list(e.values())), r=[r[s] for s in range(nstates)],
+                Rmax=max([0] + list(r.values())), zl=sorted(zl), al=sorted(al), notes=notes)
+
+
+def emit_ranks(snap, terms, nonterms):
+    c = rank_certificate(snap, terms, nonterms)
+    out = ['namespace CalmVerif.Gen.Tables.Ranks\n']
+    CH = 25
+
+    def nats(xs):
+        return lean_list([str(x) for x in xs])
+    for note in c['notes']:
+        out.append('-- NOTE (translator): %s' % note)
+    out.append('def ne : List Nat := %s' % nats(c['ne']))
+    out.append('def nulls : List Nat := %s' % nats(c['nulls']))
+    out.append('def d : List Nat := %s' % nats(c['d']))
+    out.append('def K : Nat := %d' % c['K'])
+    out.append('def Emax : Nat := %d' % c['Emax'])
+    out.append('def chunk : Nat := %d' % CH)
+    out.append('def r : List (List Nat) := %s' % lean_list([nats(c['r'][i:i + CH]) for i in range(0, len(c['r']), CH)]))
+    out.append('def Rmax : Nat := %d' % c['Rmax'])
+    out.append('def zl : List Nat := %s' % nats(c['zl']))
+    out.append('def al : List Nat := %s' % nats(c['al']))
+    out.append('\nend CalmVerif.Gen.Tables.Ranks\n')
+    return '\n'.join(out)
+
+
 def generate():
     snaps = snapshots()
     terms, nonterms = canon_symbols(snaps['Cached'])
@@ -351,4 +520,5 @@ def generate():
         out['CalmVerif/Gen/Tables/%s.lean' % ns] = emit(ns, snaps[ns], terms, nonterms)
     out['CalmVerif/Gen/Tables/Cert.lean'] = emit_cert(snaps['Cached'], terms, nonterms)
     out['CalmVerif/Gen/Tables/Items.lean'] = emit_items(snaps['Cached'], terms, nonterms)
+    out['CalmVerif/Gen/Tables/Ranks.lean'] = emit_ranks(snaps['Cached'], terms, nonterms)
     return out
